@@ -13,10 +13,10 @@ RULE = (
     'node values held and forms the defect with Q from qmat; stopping soundness and logged values are judged. Non-trivial = multi-step or '
     'multi-level or a fault fired; distinct = distinct digest.'
 )
-COMPONENTS_REAL = ['Sweeper.compute_residual, generic_implicit/explicit/imex_1st_order', 'CheckConvergence', 'controller_nonMPI.it_check', 'DefaultHooks', 'BaseTransfer + mesh_to_mesh/mesh_to_mesh_fft/TransferMesh_NoCoarse', 'testequation0d, test_equation_IMEX, heatNd_unforced/forced, advectionNd']
-COMPONENTS_STUB = ['none of pySDC; the shadow problem instance and qmat collocation matrices belong to the harness']
-ASSUMPTIONS = ['rounding allowance 64*eps*S, S = sum of absolute values of the terms of the worst row (not a tuned tolerance)', 'verdicts within the rounding margin of restol are not judged', 'imex_1st_order_mass (mass-matrix residual) is not driven: no mass-matrix problem importable without FEniCS']
-PROBES = ['residual_checked', 'stopped_by_residual', 'stopped_by_maxiter', 'soft_fault_made_residual_grow', 'later_step_converged_first']
+COMPONENTS_REAL = ['Sweeper.compute_residual, generic_implicit/explicit/imex_1st_order', 'imex_1st_order_mass.compute_residual/update_nodes', 'CheckConvergence', 'controller_nonMPI.it_check', 'DefaultHooks', 'BaseTransfer + mesh_to_mesh/mesh_to_mesh_fft/TransferMesh_NoCoarse', 'testequation0d, test_equation_IMEX, heatNd_unforced/forced, advectionNd']
+COMPONENTS_STUB = ['none of pySDC; the shadow problem instance and qmat collocation matrices belong to the harness', 'sim/massproblem.MassDahlquist: a harness-owned linear problem with a mass matrix, used to drive the real imex_1st_order_mass sweeper']
+ASSUMPTIONS = ['rounding allowance 64*eps*S, S = sum of absolute values of the terms of the worst row (not a tuned tolerance)', 'verdicts within the rounding margin of restol are not judged', 'imex_1st_order_mass is driven on a harness-owned mass-matrix problem (single level); base_transfer_mass is not driven']
+PROBES = ['mass_matrix_sweeper', 'residual_checked', 'stopped_by_residual', 'stopped_by_maxiter', 'soft_fault_made_residual_grow', 'later_step_converged_first']
 
 
 def plan(tier):
@@ -32,7 +32,7 @@ def generate(seed, tier, index):
         sc = workloads.c07_random(r, tier)
         sc['shadow'] = True
         return sc
-    sc = physics.gen_config(r)
+    sc = physics.gen_config(r, allow_mass=True)
     if r.random() < 0.06:
         sc['config']['level']['restol'] = 10 ** r.uniform(1, 3)  # tolerance already met by the initial guess
     return sc
@@ -49,6 +49,8 @@ def execute(sc):
     if any(b > a for a, b in zip(rs, rs[1:])) and res['faults']:
         res.probe('soft_fault_made_residual_grow')
     cfg = sc['config']
+    if cfg['sweeper']['class'] == 'imex_1st_order_mass':
+        res.probe('mass_matrix_sweeper')
     res['nontrivial'] = cfg['P'] > 1 or isinstance(cfg['sweeper']['params'].get('num_nodes'), list) or bool(res['faults'])
     return res.finish(log)
 
